@@ -1,10 +1,10 @@
 -- GENERATED from the working tree by harness/tables/bech32.py on every run; do not edit.
 namespace BtcVerif.Generated.Bech32
 
-/-- the character `bech32_encode` writes for each data value 0..31 (code points) -/
+/-- the character `encode` writes for each data value 0..31 (code points) -/
 def charset : List Char := [Char.ofNat 113, Char.ofNat 112, Char.ofNat 122, Char.ofNat 114, Char.ofNat 121, Char.ofNat 57, Char.ofNat 120, Char.ofNat 56, Char.ofNat 103, Char.ofNat 102, Char.ofNat 50, Char.ofNat 116, Char.ofNat 118, Char.ofNat 100, Char.ofNat 119, Char.ofNat 48, Char.ofNat 115, Char.ofNat 51, Char.ofNat 106, Char.ofNat 110, Char.ofNat 53, Char.ofNat 52, Char.ofNat 107, Char.ofNat 104, Char.ofNat 99, Char.ofNat 101, Char.ofNat 54, Char.ofNat 109, Char.ofNat 117, Char.ofNat 97, Char.ofNat 55, Char.ofNat 108]
 
-/-- the generator constants, read off `bech32_polymod` by linear algebra (see harness/tables/bech32.py) -/
+/-- the generator constants, read off the checksums `encode` appends (see harness/tables/bech32.py) -/
 def generator : List Nat := [996825010, 642813549, 513874426, 1027748829, 705979059]
 
 end BtcVerif.Generated.Bech32
